@@ -2,7 +2,7 @@
    Only statements, each closed by `exact <lemma>`, non-vacuity examples, the F141 witness, and
    the assumptions.  `hist_pos` (the f64 computation floor((v - offset) / interval) of the code) is
    universally quantified: no theorem depends on how bucket positions are computed. *)
-From TV Require Import Base.Prelude Agg.Intermediate Agg.Metrics Agg.Buckets Agg.Tree Agg.TreeProofs.
+From TV Require Import Base.Prelude Agg.Intermediate Agg.Metrics Agg.Buckets Agg.Tree Agg.TreeProofs Agg.Ext Generated.Constants.
 From Coq Require Import QArith Permutation.
 Local Close Scope Q_scope.
 
@@ -153,7 +153,46 @@ Theorem C14_duplicate_doc_push_refuted :
   match_top f141_rs (direct_top floor_pos f141_rs f141_docs) (f141_obs 1) = false.
 Proof. vm_compute. repeat split; reflexivity. Qed.
 
+(* ---- findings outside the modelled request language (classifiers of coq/Agg/Ext.v; the scenarios are decided by
+   oracles on the implementation side, see harness c14 `ext_stream`) ---- *)
+
+(* F144: the bucket computed with truncating division differs from the documented floor bucket EXACTLY for
+   instants before the epoch that are not bucket boundaries *)
+Theorem C14_truncating_division_wrong_iff : forall interval t, (0 < interval)%Z ->
+  trunc_bucket interval t <> floor_bucket interval t <-> (t < 0 /\ t mod interval <> 0)%Z.
+Proof. exact trunc_bucket_wrong_iff. Qed.
+
+(* F142 witness: A carries j.v, B does not; `missing: -20`.  Observed: one segment sum -15, segments {A},{B} sum 5. *)
+Theorem C14_absent_column_refuted :
+  f142 (XMetricMissing ((-20) # 1)%Q) [[true]; [false]] = true /\ f142 (XMetricMissing ((-20) # 1)%Q) [[true; false]] = false /\
+  f142 (XMetricMissing (7 # 1)%Q) [[true]; [false]] = false /\ f142 (XMetricMissing (5 # 2)%Q) [[true; true]] = true /\
+  f142 (XRange [((-10) # 1)%Q; ((-5) # 1)%Q]) [[true]; [false]] = true /\ (5 - 20 <> 5 + 0)%Z.
+Proof. vm_compute. repeat split; try reflexivity. discriminate. Qed.
+
+(* F143 witness: cardinality(j.c, missing "none"): one segment 2, segments {A},{B} 1 *)
+Theorem C14_cardinality_absent_column_refuted : f143 [[true]; [false]] = true /\ f143 [[true; false]] = false /\ (2 <> 1)%N.
+Proof. vm_compute. repeat split; try reflexivity. discriminate. Qed.
+
+(* F145 witness: e1 = (tags [x], matches), e2 = (tags [x], no match), e3 = (tags [y], matches); parts {e2,e3} and {e1} *)
+Theorem C14_empty_composite_left_refuted :
+  f145 [[([KS [120%N]], false); ([KS [121%N]], true)]; [([KS [120%N]], true)]] = true /\
+  f145 [[([KS [120%N]], false); ([KS [121%N]], true); ([KS [120%N]], true)]] = false.
+Proof. vm_compute. split; reflexivity. Qed.
+
+(* F146 witness: 2048 documents with bucket ids i mod 50, then 100 documents of bucket 0: in ONE segment the last
+   flush shrinks the per-bucket collectors; split into two segments of 1024 + 1124 documents nothing shrinks *)
+Definition f146_ids : list N := map (fun i => N.of_nat (i mod 50)) (seq 0 2048) ++ repeat 0%N 100.
+Theorem C14_top_hits_shrink_refuted :
+  N.eqb AGG_FLUSH_THRESHOLD 2048 = true ->
+  f146 AGG_FLUSH_THRESHOLD [f146_ids] = true /\ f146 AGG_FLUSH_THRESHOLD [firstn 1024 f146_ids; skipn 1024 f146_ids] = false.
+Proof. intros H. apply N.eqb_eq in H. rewrite H. vm_compute. split; reflexivity. Qed.
+
 Print Assumptions C14_merge_monoid.
+Print Assumptions C14_truncating_division_wrong_iff.
+Print Assumptions C14_absent_column_refuted.
+Print Assumptions C14_cardinality_absent_column_refuted.
+Print Assumptions C14_empty_composite_left_refuted.
+Print Assumptions C14_top_hits_shrink_refuted.
 Print Assumptions C14_collect_is_homomorphism.
 Print Assumptions C14_partition_independent.
 Print Assumptions C14_equals_direct.
